@@ -7,6 +7,7 @@ from extract import LostAnchor
 import gen_runtime
 
 UNIT_DEFAULT_PROP = {'runtime': 'C04', 'codegen': 'C12'}   # unlabelled safety failures (panic, overflow, bounds)
+FN_DEFAULT_PROP = {'IndexedStringLineIterator::next': 'C11', 'IndexedStringLineIterator::new': 'C11'}   # 'converting ... never panics' is C11's own sentence
 THM_RE = re.compile(r'thm_((?:C\d\d_)+)')
 
 def verus_env():
@@ -154,7 +155,7 @@ def analyse(unit, path, index, vr):
             res['failures'].append(f)
         elif in_fn is not None and ('overflow' in msg or 'precondition not satisfied' in msg):
             # unlabelled safety obligation inside an extracted function: arithmetic, panic!, unwrap, index bounds
-            f.update({'label': 'safety:' + safety_kind(d), 'props': [UNIT_DEFAULT_PROP[unit]], 'clause_fn': in_fn, 'kind': 'safety'})
+            f.update({'label': 'safety:' + safety_kind(d), 'props': [FN_DEFAULT_PROP.get(in_fn, UNIT_DEFAULT_PROP[unit])], 'clause_fn': in_fn, 'kind': 'safety'})
             res['failures'].append(f)
         elif in_fn is not None and 'assertion failed' in msg:
             res['inconclusive'].append('ghost hint assertion failed in %s (proof broke; undecided)' % in_fn)
